@@ -5,6 +5,7 @@
 (* of the existing records), each element once; no byte outside those extents changes. *)
 From Coq Require Import ZArith List.
 From Pnc Require Import Proofs_Fill.
+From Pnc Require Import Proofs_Exec.
 Set Printing Width 100.
 Set Printing Depth 100000.
 
@@ -135,3 +136,38 @@ Theorem C16_do_fill_writes_fill :
          Fill.var_fill_bytes v.
 Proof. exact @do_fill_writes_fill. Qed.
 Print Assumptions C16_do_fill_writes_fill.
+
+Theorem C16_exec_enddef_fill_reads_fill :
+  forall (w : Exec.world) (id : Z) (f : Exec.filest) (ea : Header.enddef_args)
+           (w' : Exec.world),
+         Exec.f_old f = None ->
+         Exec.f_indef f = true ->
+         Exec.f_isnew f = true ->
+         Header.l_begin_rec (Exec.f_lay f) = 0%Z ->
+         Proofs_Layout.hdr_wf (Exec.f_hdr f) ->
+         (0 <= Header.env_h_align (Exec.f_align f))%Z ->
+         (0 <= Header.env_v_align (Exec.f_align f))%Z ->
+         (0 <= Header.env_r_align (Exec.f_align f))%Z ->
+         (0 <= Exec.f_slot f < Base.Zlen (Exec.w_disks w))%Z ->
+         (0 <= id < Base.Zlen (Exec.w_files w))%Z ->
+         (1 <= Exec.w_nprocs w)%Z ->
+         Exec.do_enddef w id f ea = Some (w', Gen_consts.NC_NOERR) ->
+         exists lay : Header.layout,
+           let f'' := Proofs_Exec2.enddef_file f lay in
+           Base.znth (Exec.w_files w') id None = Some f'' /\
+           (Proofs_Header.wf_hdr (Exec.f_hdr f'') = true ->
+            forall (rank : Z) (coll : bool) (a : Exec.access) (r : Exec.rreq),
+            get_accepted w' f'' rank coll a r ->
+            let v := Exec.the_var f'' a in
+            Header.v_nofill v = false ->
+            Header.is_recvar (Header.h_dims (Exec.f_hdr f'')) v = false ->
+            Forall byte_ok (Fill.var_fill_bytes v) ->
+            Exec.get_rank_op w' f'' rank coll a =
+            (Gen_consts.NC_NOERR,
+             Exec.THex
+               (Exec.guard_bytes ++
+                concat
+                  (repeat (Data.mem_of_be (Fill.var_fill_bytes v)) (Z.to_nat (Exec.nelems_of r))) ++
+                Exec.guard_bytes) :: nil)).
+Proof. exact @enddef_fill_reads_fill. Qed.
+Print Assumptions C16_exec_enddef_fill_reads_fill.
